@@ -34,8 +34,11 @@ def run(ctx):
         base = {"arpa": m.arpa_bytes().decode("latin-1"), "vocab": m.vocab_bytes().decode("latin-1"), "queries": qs[:40]}
         for typ in lc.TYPES:
             extra = []
+            if typ in ("probing", "rest") and rng.chance(1, 2):
+                extra.append("mult=%s" % rng.choice(["1.01", "1.1", "1.3", "2", "3", "7.5"]))
             if typ in ("atrie", "qatrie") and rng.chance(1, 2):
-                extra.append("bhiksha=%d" % rng.choice([0, 3, 22]))
+                # the stored value is the configured maximum (build_binary's own help suggests 255), not the number of bits in use
+                extra.append("bhiksha=%d" % rng.choice([0, 1, 3, 22, 57, 58, 64, 255]))
             if typ in ("qtrie", "qatrie") and rng.chance(1, 2):
                 extra += ["probbits=%d" % rng.range(3, 12), "backoffbits=%d" % rng.range(3, 12)]
             ref = sess.run_impl(lmq, typ, qs, opts=extra + ["enumerate=1"])
